@@ -26,6 +26,8 @@ pub fn dispatch(op: &str, case: &Value) -> Value {
         "echo" => op_echo(case),
         "request_id_relay" => op_request_id_relay(case),
         "j2oas" => op_j2oas(case),
+        "register_params" => op_register_params(case),
+        "register_tags" => op_register_tags(case),
         _ => json!({"error": format!("unknown op {}", op)}),
     }
 }
@@ -1153,4 +1155,108 @@ fn op_j2oas(case: &Value) -> Value {
         if !out.as_object().map(|o| o.contains_key("default")).unwrap_or(false) || !out["default"].is_null() { annotations_kept = false; }
     } else if !input["default"].is_null() && out["default"] != input["default"] { annotations_kept = false; }
     json!({"openapi": out, "equivalent": equivalent, "annotations_kept": annotations_kept})
+}
+
+// ---------------------------------------------------------------------------------- C02 registration validation
+static DYN_PATH: std::sync::Mutex<Vec<(String, String)>> = std::sync::Mutex::new(vec![]);
+static DYN_QUERY: std::sync::Mutex<Vec<(String, String)>> = std::sync::Mutex::new(vec![]);
+
+fn shape_schema(shape: &str, gen: &mut schemars::gen::SchemaGenerator) -> Option<schemars::schema::Schema> {
+    use schemars::schema::*;
+    let scal = |t: InstanceType| Schema::Object(SchemaObject { instance_type: Some(SingleOrVec::Single(Box::new(t))), ..Default::default() });
+    let obj = || scal(InstanceType::Object);
+    let arr = |item: Schema| Schema::Object(SchemaObject {
+        instance_type: Some(SingleOrVec::Single(Box::new(InstanceType::Array))),
+        array: Some(Box::new(ArrayValidation { items: Some(SingleOrVec::Single(Box::new(item))), ..Default::default() })),
+        ..Default::default()
+    });
+    let sub = |f: &dyn Fn(&mut SubschemaValidation)| { let mut s = SubschemaValidation::default(); f(&mut s); Schema::Object(SchemaObject { subschemas: Some(Box::new(s)), ..Default::default() }) };
+    let mut def = |gen: &mut schemars::gen::SchemaGenerator, name: &str, s: Schema| { gen.definitions_mut().insert(name.to_string(), s); Schema::new_ref(format!("#/components/schemas/{}", name)) };
+    Some(match shape {
+        "string" => scal(InstanceType::String), "integer" => scal(InstanceType::Integer), "number" => scal(InstanceType::Number), "boolean" => scal(InstanceType::Boolean),
+        "null" => scal(InstanceType::Null), "object" => obj(),
+        "array-of-string" => arr(scal(InstanceType::String)), "array-of-integer" => arr(scal(InstanceType::Integer)),
+        "ref-to-string" => def(gen, "S", scal(InstanceType::String)), "ref-to-object" => def(gen, "O", obj()),
+        "ref-chain-to-integer" => { def(gen, "B", scal(InstanceType::Integer)); def(gen, "A", Schema::new_ref("#/components/schemas/B".to_string())) }
+        "ref-to-array-of-string" => def(gen, "L", arr(scal(InstanceType::String))),
+        "oneOf-scalars" => sub(&|s| s.one_of = Some(vec![scal(InstanceType::String), scal(InstanceType::Integer)])),
+        "oneOf-scalar-and-object" => sub(&|s| s.one_of = Some(vec![scal(InstanceType::String), obj()])),
+        "oneOf-object-and-scalar" => sub(&|s| s.one_of = Some(vec![obj(), scal(InstanceType::String)])),
+        "oneOf-ref-scalar-and-ref-object" => { let a = def(gen, "S", scal(InstanceType::String)); let b = def(gen, "O", obj()); sub(&|s| s.one_of = Some(vec![a.clone(), b.clone()])) }
+        "allOf-one-scalar" => sub(&|s| s.all_of = Some(vec![scal(InstanceType::Integer)])),
+        "allOf-two-scalars" => sub(&|s| s.all_of = Some(vec![scal(InstanceType::Integer), scal(InstanceType::String)])),
+        "anyOf-one-object" => sub(&|s| s.any_of = Some(vec![obj()])),
+        "anyOf-one-ref-scalar" => { let a = def(gen, "S", scal(InstanceType::Boolean)); sub(&|s| s.any_of = Some(vec![a.clone()])) }
+        _ => return None,
+    })
+}
+
+fn struct_schema(fields: &[(String, String)], gen: &mut schemars::gen::SchemaGenerator) -> schemars::schema::Schema {
+    use schemars::schema::*;
+    let mut ov = ObjectValidation::default();
+    for (name, shape) in fields {
+        ov.properties.insert(name.clone(), shape_schema(shape, gen).expect("known shape"));
+        ov.required.insert(name.clone());
+    }
+    Schema::Object(SchemaObject { instance_type: Some(SingleOrVec::Single(Box::new(InstanceType::Object))), object: Some(Box::new(ov)), ..Default::default() })
+}
+
+#[derive(Deserialize)]
+struct DynPath {}
+impl JsonSchema for DynPath {
+    fn schema_name() -> String { "DynPath".to_string() }
+    fn json_schema(gen: &mut schemars::gen::SchemaGenerator) -> schemars::schema::Schema { struct_schema(&DYN_PATH.lock().unwrap().clone(), gen) }
+}
+#[derive(Deserialize)]
+struct DynQuery {}
+impl JsonSchema for DynQuery {
+    fn schema_name() -> String { "DynQuery".to_string() }
+    fn json_schema(gen: &mut schemars::gen::SchemaGenerator) -> schemars::schema::Schema { struct_schema(&DYN_QUERY.lock().unwrap().clone(), gen) }
+}
+#[endpoint { method = GET, path = "/placeholder" }]
+async fn dyn_params(_r: RequestContext<()>, _p: Path<DynPath>, _q: Query<DynQuery>) -> Result<HttpResponseOk<()>, HttpError> { Ok(HttpResponseOk(())) }
+
+/// {"op":"register_params","path":"/a/{x}","params":[["Path"|"Query", name, shape], ..]} -> {"rejected": bool, "message": ..}
+fn op_register_params(case: &Value) -> Value {
+    let mut p = vec![]; let mut q = vec![];
+    let mut probe = schemars::gen::SchemaGenerator::default();
+    for it in case["params"].as_array().unwrap() {
+        let (kind, name, shape) = (it[0].as_str().unwrap(), it[1].as_str().unwrap().to_string(), it[2].as_str().unwrap().to_string());
+        if shape_schema(&shape, &mut probe).is_none() { return json!({"unsupported": shape}); }
+        if kind == "Path" { p.push((name, shape)) } else { q.push((name, shape)) }
+    }
+    *DYN_PATH.lock().unwrap() = p;
+    *DYN_QUERY.lock().unwrap() = q;
+    let path = case["path"].as_str().unwrap().to_string();
+    let r = crate::quiet(|| {
+        let mut e: ApiEndpoint<()> = ApiEndpoint::from(dyn_params);
+        e.path = path;
+        e.visible = !e.path.contains(":.*");
+        let mut api = ApiDescription::<()>::new();
+        api.register(e)
+    });
+    match r {
+        Err(pn) => json!({"rejected": true, "panic": pn}),
+        Ok(Ok(())) => json!({"rejected": false}),
+        Ok(Err(e)) => json!({"rejected": true, "message": format!("{:?}", e)}),
+    }
+}
+
+/// {"op":"register_tags","policy":"Any"|"AtLeastOne"|"ExactlyOne","allow_other":b,"tags":[..],"visible":b}
+fn op_register_tags(case: &Value) -> Value {
+    use dropshot::{EndpointTagPolicy, TagConfig, TagDetails};
+    let policy = match case["policy"].as_str().unwrap() { "AtLeastOne" => EndpointTagPolicy::AtLeastOne, "ExactlyOne" => EndpointTagPolicy::ExactlyOne, _ => EndpointTagPolicy::Any };
+    let mut tags = std::collections::HashMap::new();
+    tags.insert("known-a".to_string(), TagDetails::default());
+    tags.insert("known-b".to_string(), TagDetails::default());
+    let tc = TagConfig { allow_other_tags: case["allow_other"].as_bool().unwrap(), policy, tags };
+    let mut e: ApiEndpoint<()> = ApiEndpoint::from(crate::generic_handler);
+    e.tags = case["tags"].as_array().unwrap().iter().map(|t| t.as_str().unwrap().to_string()).collect();
+    e.visible = case["visible"].as_bool().unwrap();
+    e.path = "/a".to_string();
+    let mut api = ApiDescription::<()>::new().tag_config(tc);
+    match api.register(e) {
+        Ok(()) => json!({"rejected": false}),
+        Err(e) => json!({"rejected": true, "message": format!("{:?}", e)}),
+    }
 }
